@@ -420,6 +420,8 @@ local ok, e = pcall(error, "x", 0)
 emit("life-err", ok, e)
 local function deep(n, fail) if n <= 0 then if fail then error("deep") end return 0 end return 1 + deep(n - 1, fail) end
 emit("deep", deep(30, false), (pcall(deep, 25, true)), deep(5, false), deep(28, false))
+local function h(...) arg[#arg + 1] = "x"; arg.n = arg.n + 1; return #arg .. "." .. arg.n end
+emit("vararg", select(2, pcall(h)), select(2, pcall(h)), h(1, 2), (h()))
 `
 
 func (e *Engine) Run(t *core.Tape, cfg *core.Config, st *core.Stats) *core.Violation {
@@ -677,7 +679,7 @@ func (e *Engine) Run(t *core.Tape, cfg *core.Config, st *core.Stats) *core.Viola
 				return fail("solo-equivalence", "task %d %s computed something else than it computes alone\nconcurrent:\n  %s\nsolo:\n  %s\nprogram:\n%s", tk.id, tk.name, strings.Join(tailS(got, 25), "\n  "), strings.Join(tailS(tk.soloTrace, 25), "\n  "), tk.src)
 			}
 		case kLifecycle:
-			one := "E:'life',2870,2,8,'7','xxx'|E:'life-err',false,'x'|E:'deep',30,false,5,28|--- state %d closed|full:7, 3.14|42|x|\"a b\",<hello> <world>,4,1-2-5-8,94,2,false,2"
+			one := "E:'life',2870,2,8,'7','xxx'|E:'life-err',false,'x'|E:'deep',30,false,5,28|E:'vararg','1.1','1.1','3.3','1.1'|--- state %d closed|full:7, 3.14|42|x|\"a b\",<hello> <world>,4,1-2-5-8,94,2,false,2"
 			want := fmt.Sprintf(one, 0) + "|" + fmt.Sprintf(one, 1) + "|" + fmt.Sprintf(one, 2)
 			if got := strings.Join(tk.trace, "|"); got != want || tk.err != "" {
 				return fail("solo-equivalence", "lifecycle task %d: trace %q error %q, want %q", tk.id, got, tk.err, want)
